@@ -118,6 +118,36 @@ class Emitter:
         s.typeinfos = []   # typeinfo global names, index+1 = id
         s.unmodelled = set()
         s.coroutine = set(args.coroutine); s.hook = set(args.hook_access)
+        s.fnids = {}       # address-taken function -> fake address
+        s.icalls = {}      # signature key -> (name, ret ctype, [param ctypes], vararg)
+
+    def fnid(s, n):
+        if n not in s.fnids: s.fnids[n] = 0x7f0000000000 + 16 * (len(s.fnids) + 1)
+        return s.fnids[n]
+    def icall(s, rct, pcts, va):
+        key = (rct, tuple(pcts), va)
+        if key not in s.icalls: s.icalls[key] = 'ir_icall_%d' % len(s.icalls)
+        return s.icalls[key]
+    def sig_of(s, n):
+        if n in s.mod.funcs:
+            f = s.mod.funcs[n]; return (s.ctype(f.ret), tuple(s.ctype(t) for t, _ in f.params), f.vararg)
+        rt, ps, va, _ = s.mod.decls[n]
+        return (s.ctype(rt), tuple(s.ctype(t) for t in ps), va)
+    def emit_icalls(s):
+        protos = []; bodies = []
+        for (rct, pcts, va), name in s.icalls.items():
+            ps = ', '.join('%s a%d' % (t, i) for i, t in enumerate(pcts))
+            proto = '%s %s(char* fn%s)' % (rct, name, (', ' + ps) if ps else '')
+            protos.append(proto + ';\n')
+            b = [proto + ' {\n  switch ((uintptr_t)fn) {\n']
+            for fn_, fid in s.fnids.items():
+                if s.sig_of(fn_) == (rct, pcts, va) and not va:
+                    call = '%s(%s)' % (s.gname(fn_), ', '.join('a%d' % i for i in range(len(pcts))))
+                    b.append('    case 0x%xULL: %s\n' % (fid, ('return %s;' % call) if rct != 'void' else (call + '; return;')))
+            dummy = 'return;' if rct == 'void' else ('return (%s){0};' % rct if rct.startswith('struct') else 'return (%s)0;' % rct)
+            b.append('    default: vr_bad_icall(); %s\n  }\n}\n' % dummy)
+            bodies.append(''.join(b))
+        return ''.join(protos), ''.join(bodies)
 
     # ---------- naming
     def gname(s, n):
@@ -189,7 +219,9 @@ class Emitter:
         if k == 'global':
             if x in s.mod.aliases: return s.val(s.mod.aliases[x], fn)
             s.ref_global(x)
-            return '((char*)&%s)' % s.gname(x) if x not in s.mod.funcs and x not in s.mod.decls else '((char*)%s)' % s.gname(x)
+            if x in s.mod.funcs or x in s.mod.decls:
+                return '((char*)(uintptr_t)0x%xULL)' % s.fnid(x)
+            return '((char*)&%s)' % s.gname(x)
         rt = s.L.resolve(t)
         if k == 'int':
             if rt.k == 'ptr': return '((char*)%dULL)' % x
@@ -409,7 +441,10 @@ class Emitter:
         o.append('int ir_typeinfo_id(char* p) {\n')
         for t, i in ids.items(): o.append('  if (p == (char*)&%s) return %d;\n' % (s.gname(t), i))
         o.append('  return -1;\n}\n')
+        ip, ib = s.emit_icalls()
+        o.append(ip)
         o.extend(bodies)
+        o.append(ib)
         return ''.join(o)
 
 class FuncEmit:
@@ -524,7 +559,7 @@ class FuncEmit:
             s.w('%s = %s;' % (r, E.icmp_expr(I.a[0], I.a[1], I.a[2], s)))
         elif op == 'fcmp':
             w_ = '64' if E.L.resolve(I.a[1][2]).k == 'double' else '32'
-            s.w('%s = vr_fcmp%s(VR_%s, %s, %s);' % (r, w_, I.a[0].upper(), s.v(I.a[1]), s.v(I.a[2])))
+            s.w('%s = vr_fcmp%s(VRP_%s, %s, %s);' % (r, w_, I.a[0].upper(), s.v(I.a[1]), s.v(I.a[2])))
         elif op in CASTS:
             a = I.a[0]; ft = E.L.resolve(a[2]); tt = E.L.resolve(I.ty); e = s.v(a); ct = E.ctype(tt)
             if op in ('bitcast', 'addrspacecast'):
@@ -701,9 +736,9 @@ class FuncEmit:
             ex = '%s(%s)' % (cn, ', '.join(cargs))
             finish(ex, name not in NOTHROW_EXT)
         else:
-            pts = ', '.join(E.ctype(a[2]) for a in av)
-            if fnty is not None and fnty.vararg: pts += ', ...'
-            ex = '((%s(*)(%s))%s)(%s)' % (E.ctype(rt), pts or 'void', s.v(callee), ', '.join(cargs))
+            if fnty is not None and fnty.vararg: raise ValueError('indirect vararg call')
+            disp = E.icall(E.ctype(rt), [E.ctype(a[2]) for a in av], False)
+            ex = '%s(%s)' % (disp, ', '.join([s.v(callee)] + cargs))
             finish(ex)
 
     def intrinsic(s, I, r, name, av, finish):
@@ -804,7 +839,7 @@ def main():
     open(a.o, 'w').write(text)
     if a.map:
         json.dump({'names': E.names, 'demangled': {n: dem.get(n, n) for n in E.names}, 'unmodelled': sorted(E.unmodelled),
-                   'typeinfos': E.typeinfos, 'cut': a.cut, 'roots': a.roots,
+                   'typeinfos': E.typeinfos, 'fnids': E.fnids, 'icalls': {v: list(map(str, k)) for k, v in E.icalls.items()}, 'cut': a.cut, 'roots': a.roots,
                    'translated': sorted(n for n in E.refd if n in mod.funcs and n not in a.cut)}, open(a.map, 'w'), indent=1)
 
 if __name__ == '__main__':
